@@ -13,7 +13,7 @@ BOUNDS = ("The instruction helpers are NOT stubbed here. Unit.get_human_readable
           "enzyme and a container with a symbolic stored quantity over 13 decades; the instruction text of: the "
           "Container constructor (liquid+solid+enzyme, with and without capacity), Container.transfer from a source "
           "with liquid and from a solids/enzyme-only source (uL, mg, umol, U), dilute, fill_to, create_solution (pure "
-          "and container solvent), create_solution_from, and the baked recipe steps create_container, transfer, "
+          "and container solvent, one solute and a list of two), create_solution_from, and the baked recipe steps create_container, transfer, "
           "create_solution, create_solution_from, remove, dilute, fill_to (container), the last two also as the second step after a transfer into the same container. Every displayed number is "
           "carried through the text as a tag and compared with the contents delta: |displayed * prefix - true amount| "
           "<= 0.5*10^-digits * prefix. Quantities symbolic over [1e-9, 1e3] base units so every branch of the "
@@ -38,7 +38,7 @@ def cells(tier, seed):
                     'stub_text': False, 'params': {'what': what}})
     texts = ['ctor/capacity', 'ctor/nocap', 'transfer/liquid/uL', 'transfer/liquid/mg', 'transfer/solids/mg',
              'transfer/solids/umol', 'transfer/solids/U', 'dilute', 'fill_to/mL', 'fill_to/g', 'create_solution/pure',
-             'create_solution/container', 'create_solution_from', 'recipe/create_container', 'recipe/transfer',
+             'create_solution/container', 'create_solution/pure2', 'create_solution/container2', 'create_solution_from', 'recipe/create_container', 'recipe/transfer',
              'recipe/solution', 'recipe/solution_from', 'recipe/remove', 'recipe/dilute', 'recipe/fill_to',
              'recipe/fill_to2', 'recipe/dilute2']
     if tier == 'thorough':
@@ -126,7 +126,7 @@ def h_text(h):
     t = h.p['text']
     env = h.env
     C, Plate, Recipe = env.Container, env.Plate, env.Recipe
-    lib = Lib(h, ['water', 'NaCl', 'lipase', 'DMSO'])
+    lib = Lib(h, ['water', 'NaCl', 'lipase', 'DMSO', 'Na2SO4'])
     water, salt, lip, dmso = lib['water'], lib['NaCl'], lib['lipase'], lib['DMSO']
     h.outcome = 'ok'
     try:
@@ -217,13 +217,19 @@ def _text(h, t, env, C, Plate, Recipe, lib, water, salt, lip, dmso):
     elif t.startswith('create_solution/'):
         a = h.real('a', Fr(1, 10**4), 5)
         T = h.real('T', Fr(1, 10**6), 10**3)
-        if t.endswith('pure'):
-            r = C.create_solution(salt, water, concentration=f"{a} M", total_quantity=f"{T} mL")
+        # (the '2' variants dissolve two solutes at once: the list forms of the arguments)
+        two = t.endswith('2')
+        other = lib['Na2SO4']
+        b = h.real('b', Fr(1, 10**4), 3) if two else None
+        solute_arg = [salt, other] if two else salt
+        conc_arg = [f"{a} M", f"{b} M"] if two else f"{a} M"
+        if t.endswith('pure') or t.endswith('pure2'):
+            r = C.create_solution(solute_arg, water, concentration=conc_arg, total_quantity=f"{T} mL")
             h.require('text:solution-form', h.true(r.instructions.endswith('to a container.')), detail=r.instructions)
             _check_add_list(h, lib, r.instructions, r.contents, 'create_solution')
         else:
             solv = mk_container(h, lib, 'SOLV', ['water', 'DMSO'], lo=10, hi=10**6)
-            rest, r = C.create_solution(salt, solv, concentration=f"{a} M", total_quantity=f"{T} mL")
+            rest, r = C.create_solution(solute_arg, solv, concentration=conc_arg, total_quantity=f"{T} mL")
             m = re.search(r' to ' + NUM + r' (\S+) of (\S+)\.$', r.instructions)
             h.require('text:solution-container-form', h.true(m is not None), detail=r.instructions)
             if m:
@@ -232,7 +238,8 @@ def _text(h, t, env, C, Plate, Recipe, lib, water, salt, lip, dmso):
                 for s in solv.contents:
                     drawn = drawn + lib.amount(s, solv.contents[s] - rest.contents[s], 'L')
                 displayed_ok(h, 'text:solution-solvent-amount', num(h, m.group(1)), m.group(2), drawn, detail=r.instructions)
-            _check_add_list(h, lib, r.instructions[:m.start()] if m else r.instructions, {salt: r.contents[salt]}, 'create_solution')
+            _check_add_list(h, lib, r.instructions[:m.start()] if m else r.instructions,
+                            {s_: r.contents[s_] for s_ in ([salt, other] if two else [salt])}, 'create_solution')
     elif t == 'create_solution_from':
         stock = mk_container(h, lib, 'STOCK', ['water', 'NaCl'], lo=10, hi=10**6)
         ct = h.real('ct', Fr(1, 10**4), 5)
